@@ -474,7 +474,7 @@ type replayFile struct {
 
 var (
 	replayMu   sync.Mutex
-	replayBest = map[string]int{}
+	replayBest = map[string][2]int{}
 )
 
 func writeReplay(c *Case) string {
@@ -488,11 +488,17 @@ func writeReplay(c *Case) string {
 
 	path := filepath.Join(dir, c.Check+os.Getenv("VERIF_REPLAY_SUFFIX")+".json")
 
-	if best, ok := replayBest[c.Check]; ok && best <= len(c.Choices) {
+	sum := 0
+	for _, v := range c.Choices {
+		sum += v
+	}
+
+	cur := [2]int{len(c.Choices), sum}
+	if best, ok := replayBest[c.Check]; ok && (best[0] < cur[0] || (best[0] == cur[0] && best[1] <= cur[1])) {
 		return path
 	}
 
-	replayBest[c.Check] = len(c.Choices)
+	replayBest[c.Check] = cur
 
 	rf := replayFile{
 		Property: c.Prop, Check: c.Check, Sig: c.fail.Sig, Message: c.fail.Msg,
